@@ -25,6 +25,30 @@ def put(name, body):
     b = "<!-- END:%s -->" % name
     i, j = s.index(a), s.index(b)
     s = s[:i + len(a)] + "\n" + body + "\n" + s[j:]
+# cost table from the latest run logs (kept as is when the logs are not there)
+def read_summary(path, seed=None):
+    out = {}
+    try:
+        for line in open(path):
+            f = line.split()
+            if len(f) < 5 or not f[0].startswith('C'):
+                continue
+            if seed is not None and f[1] != 'seed=%s' % seed:
+                continue
+            ev = [x for x in f if x.startswith('evaluations=')]
+            out[f[0]] = (f[3].replace('wall=', ''), f[4], ev[0].split('=')[1] if ev else '?')
+    except FileNotFoundError:
+        pass
+    return out
+q = read_summary(os.path.join(V, 'work/logs/quick-summary.txt'), 1)
+t = read_summary(os.path.join(V, 'work/logs/thorough-summary.txt'))
+if q and "<!-- BEGIN:cost-table -->" in s:
+    rows = ["| property | quick: wall, verdict, evaluations | thorough: wall, verdict, evaluations |", "|---|---|---|"]
+    for i in range(1, 33):
+        pid = "C%02d" % i
+        a = q.get(pid); b = t.get(pid)
+        rows.append("| %s | %s | %s |" % (pid, "%s, %s, %s" % a if a else "-", "%s, %s, %s" % b if b else "not measured in the last pass"))
+    put('cost-table', "\n".join(rows))
 put('fixed-table', fixed)
 put('seeded-table', seeded)
 open(os.path.join(V, 'DESIGN.md'), 'w').write(s)
